@@ -335,6 +335,18 @@ def gen_cases(tier, seed):
         spec = {'seed': rng.randrange(1 << 30), 'config': cfg, 'transfers': [{'kind': 'download', 'dst': 'nonseekable', 'size': size}], 'family': 'partial-write',
                 'plan': {'faults': [{'at': f't0/dst:write#{rng.randrange(0, 4)}', 'phase': 'before', 'kind': 'blockingio', 'tag': 'FAULT-blocking'}]}}
         cases.append({'type': 'e2e', 'spec': spec})
+    # hundreds of io blocks withheld behind ONE gap (the lowest part is the last to arrive, the others were read completely meanwhile):
+    # when the gap closes - possibly with the very last delivery of the transfer - everything withheld is written
+    for i in range(6 if quick else 40):
+        C = rng.choice([48, 64, 100])
+        nparts = rng.choice([3, 4, 5])
+        size = nparts * C - rng.choice([0, 0, 7])
+        cfg = dict(multipart_threshold=C, multipart_chunksize=C, io_chunksize=1, max_request_concurrency=nparts, max_in_memory_download_chunks=nparts,
+                   max_io_queue_size=rng.choice([1000, 1000, 3]), num_download_attempts=2)
+        t = {'kind': 'download', 'dst': rng.choice(['nonseekable', 'nonseekable', 'fifo']), 'size': size}
+        spec = {'seed': rng.randrange(1 << 30), 'config': cfg, 'transfers': [t], 'family': 'many-withheld-blocks',
+                'plan': {'gate': {'match': 's3:GetObject', 'phase': 'before', 'policy': 'lowest_last'}}}
+        cases.append({'type': 'e2e', 'spec': spec})
     # real-scale blocks: io_chunksize (the size of the blocks handed to the destination) above and around 1 MiB, objects of a few MiB,
     # single-request and ranged
     MB = 1024 * 1024
